@@ -34,6 +34,9 @@ CONSTANTS D,        \* depth
           MaxBatch, \* longest range write
           Variant   \* "none", or a named faulty variant that TLC must refute (vacuity control):
                     \*   "lazy-flush" = the flush is skipped when only batch writes happened since the last one (seeded C16-m4)
+                    \*   "memory-first" = what the external tree crate really does (known findings pm-next-memory-ahead and
+                    \*                    pm-batch-root-memory-behind): the in-memory leaf count is raised when the operation
+                    \*                    starts, the in-memory root is replaced only when it has completed
 
 Cap == Pow2(D)
 
@@ -103,7 +106,8 @@ Begin(name, p, postT, postMeta) ==
   /\ plan' = p
   /\ cur' = [name |-> name, post |-> [t |-> postT, meta |-> postMeta]]
   /\ nops' = nops + 1
-  /\ UNCHANGED <<db, mem, ideal, faultAt, wcount, failed, lastRes, disk, unflushed, since, crashed>>
+  /\ mem' = IF Variant = "memory-first" THEN [mem EXCEPT !.next = postT.next] ELSE mem
+  /\ UNCHANGED <<db, ideal, faultAt, wcount, failed, lastRes, disk, unflushed, since, crashed>>
 
 StartSet == \E i \in 0..(Cap - 1), v \in Vals :
   Begin("set", SetPlan(i, v), SetF(D, ideal.t, i, v).st, ideal.meta)
@@ -139,7 +143,9 @@ Step ==
              ELSE disk' = disk /\ unflushed' = Append(unflushed, Head(plan).kvs)
           /\ since' = (IF Len(plan) # 1 THEN since
                        ELSE IF cur.name = "flush" THEN {cur.post} ELSE since \cup {cur.post})
-          /\ mem' = MemAfter(Head(plan).kvs)
+          /\ mem' = IF Variant = "memory-first"
+                    THEN (IF Len(plan) = 1 THEN [root |-> Root(D, cur.post.t), next |-> cur.post.t.next] ELSE mem)
+                    ELSE MemAfter(Head(plan).kvs)
           /\ plan' = Tail(plan)
           /\ IF Len(plan) = 1
              THEN cur' = NoOp /\ ideal' = cur.post /\ lastRes' = "ok"
@@ -196,6 +202,11 @@ Dur ==
      /\ \A i \in 0..(Cap - 1) : Loaded.leaf[i] \in {Lf(ideal.t, i), Lf(cur.post.t, i)}
      /\ Loaded.next \in {ideal.t.next, cur.post.t.next}
      /\ Loaded.meta \in {ideal.meta, cur.post.meta}
+
+\* what the live instance reports after a failed operation is what a reopen will find (first sentence of C16 under
+\* fault sequences): holds for the design in which memory follows the writes, refuted for "memory-first"
+LiveEqualsLoaded ==
+  (failed /\ ~crashed) => (mem.next = Loaded.next /\ mem.root = Loaded.root)
 
 \* crash points: what a reopen finds was acknowledged since the last successful flush (or intended by the call in flight)
 CrashAlts == since \cup (IF cur.name # "none" THEN {cur.post} ELSE {})
